@@ -753,7 +753,12 @@ class MarkdownNormalizer(Renderer):
         if not element.soft:
             # What follows a hard break starts a line, like the start of the paragraph
             # (an escaped `1\.` there must keep its escape).
+            text = self._current_inline_text
             self._current_inline_text = ""
+            if (len(text) - len(text.rstrip("\\"))) % 2 == 1:
+                # A literal backslash right before the break is escaped, or it would be
+                # read together with the backslash of the break as an escaped backslash.
+                return "\\\\\n"
         return "\n" if element.soft else "\\\n"
 
     def render_code_span(self, element: inline.CodeSpan) -> str:
